@@ -120,6 +120,26 @@ fn gen_marked(rng: &mut Rng) -> (String, Vec<(u32, u32)>) {
         lines.push("    return c".to_owned());
         funcs.push(name);
     }
+    // A def whose parameter / local carry the names of module variables (a list that is read again
+    // at the end, an int that is re-assigned, and one assigned only later), and a helper that fails
+    // a few frames deep.
+    let shadow = rng.chance(2, 3);
+    if shadow {
+        lines.push("def shadow(glist, g0 = 5):".to_owned());
+        lines.push("    late = len(glist) + g0".to_owned());
+        push_mark(&mut lines, 4, &["g0", "late"]);
+        lines.push("    glist = glist + [late]".to_owned());
+        push_mark(&mut lines, 4, &["late"]);
+        lines.push("    emit(glist)".to_owned());
+        lines.push("    return late".to_owned());
+        lines.push(format!("g0 = g0 + shadow([7, 8, 9], {})", rng.range(1, 6)));
+        push_mark(&mut lines, 0, &["g0"]);
+        lines.push("emit(glist)".to_owned());
+    }
+    lines.push("def fail_in(n):".to_owned());
+    lines.push("    if n == 0:".to_owned());
+    lines.push("        return [n] + 1".to_owned());
+    lines.push("    return fail_in(n - 1) + [n]".to_owned());
     // A def with annotated parameters and return type (run-time type checks are instrumented too).
     let typed = rng.chance(2, 3);
     if typed {
@@ -158,6 +178,9 @@ fn gen_marked(rng: &mut Rng) -> (String, Vec<(u32, u32)>) {
                 if typed && rng.bool() {
                     let bad = *rng.pick(&["ftyped(\"bad\", \"x\")", "ftyped(1, 2)", "ftyped(1, \"x\", [\"y\"])", "ftyped(None)"]);
                     lines.push(format!("u{t} = {bad}"));
+                } else if rng.bool() {
+                    // The error is raised a few frames deep, inside running defs.
+                    lines.push(format!("u{t} = [{f}(1), fail_in({})]", rng.range(0, 4)));
                 } else {
                     lines.push(format!("u{t} = {f}(1) + None"));
                 }
@@ -168,6 +191,11 @@ fn gen_marked(rng: &mut Rng) -> (String, Vec<(u32, u32)>) {
                 push_mark(&mut lines, 0, &[&format!("u{t}")]);
             }
         }
+    }
+    if shadow {
+        lines.push("late = g0 * 2".to_owned());
+        push_mark(&mut lines, 0, &["late"]);
+        lines.push("emit(late)".to_owned());
     }
     lines.push("emit(g0, glist)".to_owned());
     (lines.join("\n") + "\n", markers)
@@ -201,11 +229,14 @@ fn is_gc_line(text: &str, line: u32) -> bool {
 struct RunOut {
     transcript: Vec<String>,
     result: String,
+    /// What freezing the module after the evaluation gave.
+    frozen: String,
 }
 
 fn eval_with<F: FnOnce(&mut Evaluator) -> Option<String>>(text: &str, setup: F, after_profile: bool) -> RunOut {
     kit::ctx_reset();
     let mut result = String::new();
+    let mut frozen = String::new();
     Module::with_temp_heap(|module| {
         let mut eval = Evaluator::new(&module);
         let note = setup(&mut eval);
@@ -231,8 +262,23 @@ fn eval_with<F: FnOnce(&mut Evaluator) -> Option<String>>(text: &str, setup: F, 
         if let Some(n) = note {
             let _ = n;
         }
+        drop(eval);
+        // Freezing must work whatever was instrumented and however the evaluation ended; the
+        // retained-memory profiles are produced here.
+        match module.freeze() {
+            Ok(fm) => {
+                if let Ok(p) = fm.heap_profile() {
+                    let _ = p.gen_csv();
+                    let _ = p.gen_flame_data();
+                }
+                let mut names: Vec<String> = fm.names().map(|n| n.as_str().to_owned()).collect();
+                names.sort();
+                frozen = format!("frozen names {}", names.len());
+            }
+            Err(e) => frozen = format!("freeze failed: {e:?}"),
+        }
     });
-    RunOut { transcript: kit::take_transcript(), result }
+    RunOut { transcript: kit::take_transcript(), result, frozen }
 }
 
 /// Marker ids in execution order, parsed from a transcript.
@@ -615,7 +661,7 @@ impl World for C18 {
             );
             o.sim_time += 1;
             o.bump("configs.profile_modes", 1);
-            if r.transcript != reference.transcript || r.result != reference.result {
+            if r.transcript != reference.transcript || r.result != reference.result || r.frozen != reference.frozen {
                 o.violate(
                     "instrumentation-interferes",
                     &format!("profile/{name}"),
